@@ -82,6 +82,16 @@ CLAIMS = {
         text='Static: tearfree() = sharded_chain(graft(grafting_options, second_order(second_order_options)), momentum(momentum_options), scale(-lr) | scale_by_schedule(-lr(t))) in that order, chain threading in argument order, learning_rate reaching only the last stage (exact linearity); second_order = merge -> precondition -> unmerge from one reshaper options value (Shampoo block size / Sketchy 0), state initialised on merged params; momentum stage list for all 16 option valuations; Shampoo root p = 2*rank with half factors w^(-0.5/p) and per-block 1e-6 relative cut-off; Sketchy applies V diag(inv) V^T + inv_tail(I - VV^T) per axis (ekfac slots); plus Tearfree cadence/warm-up, grafting, merge/pad/blockify losslessness, block independence, sketch decay rules. Necessary conditions of C15.',
         note='Trusted: documented meaning of optax.scale / trace / add_decayed_weights. Undecided: numeric equality with an independent reference.',
         design='4/C15'),
+    'C16': dict(
+        technique='exhaustiveness of the algorithm table, constant propagation through the factor functions, value-graph normal forms of the FD / OGD / AdaGrad updates per algorithm, plus the DEG rules of C09 for the OCO sketch',
+        text='Static: Algorithm members = OGD, ADA + factor-table keys, each bound to its own init/update, factor tuples as documented (S-AdaGrad: sketch 1, alpha factor 1, lr, rsqrt); for all four FD algorithms t\' = t + 1, sketch input (P e).at[-1].set(g * factor), rho = s[-1], e\' = sqrt((s-rho)(s+rho)), P\' = vt, alpha\' = alpha + factor * rho^2 with alpha_0 = delta, and the iterate formulas with the same safe inverse (cut-off exactly 0) inside and outside the sketch; OGD and diagonal AdaGrad equal their closed forms with h_0 = delta and the zero guard. Necessary conditions of C16.',
+        note='Trusted: svd returns singular values in descending order. Undecided: FD bracket, equality with full-matrix AdaGrad for low-rank histories (numerical).',
+        design='4/C16'),
+    'C17': dict(
+        technique='difference-bound abstract interpretation of the top-up loop (rank = dim + c, extra classes) with sympy as the ordering oracle; must-pass-through / dominance order of assertions; guarded-division (positivity) rule; grouping key rule',
+        text='Static: in every ordering class of the top-up loop 0 <= d(rank) <= -d(extra), rank\' <= dim and the loop leaves once the pool is exhausted, so with allocated <= budget asserted before it the group never exceeds group size * base rank; the rank <= dim and allocated <= budget assertions and the budget reset precede the top-up and the write-out; proportional phase hands out dim or rd(share) = int(share // 1) + 1 charging exactly rd - 1 from a pool reduced by one unit per layer, with every division guarded by a positivity test of the float32 remaining score (F19 repaired); groups are keyed by axis dimension and budgeted group size * base rank. Necessary conditions of C17.',
+        note='Trusted: non-negative finite scores; assertions executed. Undecided: the proportional phase tripping its own assertions (no allocation returned).',
+        design='4/C17'),
 }
 
 NOT_BUILT_REASON = 'checker for this property not built yet (build phase in progress; see DESIGN.md section 9)'
